@@ -28,7 +28,7 @@ from vf.common import farm, finish
 PROP = 'C17'
 NBLOCKS = 2020
 LENGTHS = [3534, 3535, 3536, 3537, 3538, 3539]
-CONFIGS = {'0': 350000, '350000': 350000, '350063': 350063, '350064': 350064, '350163': 350163,
+CONFIGS = {'0': 350000, '100000': 350000, '350000': 350000, '350063': 350063, '350064': 350064, '350163': 350163,
            'unset': 1000000}
 GROW = 3534            # the script that gains entries with the extra blocks
 
@@ -254,6 +254,13 @@ def case_history(case, res):
     try:
         c = s.connect()
         c.call('server.version', ['x', '1.4.2'])
+        # whatever MAX_SEND says, a standard chunk of 2016 headers fits (the documented floor)
+        r = c.call('blockchain.block.headers', [0, 2016])
+        res.count('history_requests')
+        if 'error' in r or r['result'].get('count') != 2016:
+            res.violation('headers:standard-chunk-refused-under-this-max-send',
+                          dict(kind='history', config=config, order=case['order']),
+                          dict(config=config, reply=str(r.get('error') or r['result'].get('count'))[:200]))
         for n in LENGTHS:
             script = script_for(n)
             sh = chain.scripthash_hex(script)
@@ -380,6 +387,36 @@ def case_inflight(case, res):
             c.call('blockchain.scripthash.get_history', [chain.scripthash_hex(chain.SCRIPTS['S'])])
         script = script_for(n)
         sh = chain.scripthash_hex(script)
+        if variant == 'nobody-connected':
+            # the history is cached, every client disconnects, the block arrives while nobody is
+            # connected, then a client connects
+            c.call('blockchain.scripthash.get_history', [sh])
+            for sess in list(s.session_mgr.sessions):
+                sess.transport.connection_lost(None) if hasattr(sess.transport, 'connection_lost') \
+                    else None
+            c.protocol.connection_lost(None)
+            s.run_idle()
+            if s.session_mgr.sessions:
+                raise common.Broken('sessions still connected')
+            after = base + more[:1]
+            s.daemon.set_chain(after)
+            s.settle()
+            c = s.connect()
+            c.call('server.version', ['y', '1.4.2'])
+            res.count('inflight_history_requests')
+            ref1 = ref_history(after, script)
+            bad = None
+            for m2 in (m, 'get_history'):
+                r2 = c.call('blockchain.scripthash.' + m2, [sh])
+                why = outcome_bad(r2, m2, ref1, limit)
+                if why:
+                    bad = f'afterwards:{m2}:{why}'
+                    break
+            if bad:
+                res.violation('history-cached-while-nobody-was-connected:' + bad.split('(')[0], dict(case),
+                              dict(case, limit=limit, entries_after=len(ref1), problem=bad))
+            res.distinct('parts', 'inflight')
+            return
         rid = c.request('blockchain.scripthash.' + m, [sh])
         while s.loop.step_ready():
             pass
@@ -482,7 +519,7 @@ def cases_for(tier):
             cases.append(dict(kind='history', config=config, order=order))
     for config in CONFIGS:
         for n in LENGTHS:
-            for variant in ('hold', 'stall', 'stall-mid-notify'):
+            for variant in ('hold', 'stall', 'stall-mid-notify', 'nobody-connected'):
                 for m in ('get_history', 'subscribe'):
                     for other in (False, True):
                         cases.append(dict(kind='inflight', config=config, n=n, variant=variant,
